@@ -49,34 +49,41 @@ const K512: [u64; 80] = [
 0x28db77f523047d84,0x32caab7b40c72493,0x3c9ebe0a15c9bebc,0x431d67c49c100d4c,0x4cc5d4becb3e42b6,0x597f299cfc657e2a,0x5fcb6fab3ad6faec,0x6c44198c4a475817];
 
 pub fn sha512(msg: &[u8]) -> [u8; 64] { let o = sha512_raw(msg); crate::trace::rec("sha512", 300, || (crate::trace::h(msg), crate::trace::h(&o))); o }
-fn sha512_raw(msg: &[u8]) -> [u8; 64] {
-    let mut h: [u64; 8] = [0x6a09e667f3bcc908,0xbb67ae8584caa73b,0x3c6ef372fe94f82b,0xa54ff53a5f1d36f1,0x510e527fade682d1,0x9b05688c2b3e6c1f,0x1f83d9abfb41bd6b,0x5be0cd19137e2179];
-    let mut m = msg.to_vec(); m.push(0x80);
-    while m.len() % 128 != 112 { m.push(0); }
-    m.extend_from_slice(&((msg.len() as u128) * 8).to_be_bytes());
-    for chunk in m.chunks(128) {
-        let mut w = [0u64; 80];
-        for i in 0..16 { w[i] = u64::from_be_bytes(chunk[8 * i..8 * i + 8].try_into().unwrap()); }
-        for i in 16..80 {
-            let s0 = w[i - 15].rotate_right(1) ^ w[i - 15].rotate_right(8) ^ (w[i - 15] >> 7);
-            let s1 = w[i - 2].rotate_right(19) ^ w[i - 2].rotate_right(61) ^ (w[i - 2] >> 6);
-            w[i] = w[i - 16].wrapping_add(s0).wrapping_add(w[i - 7]).wrapping_add(s1);
-        }
-        let [mut a, mut b, mut c, mut d, mut e, mut f, mut g, mut hh] = h;
-        for i in 0..80 {
-            let s1 = e.rotate_right(14) ^ e.rotate_right(18) ^ e.rotate_right(41);
-            let ch = (e & f) ^ (!e & g);
-            let t1 = hh.wrapping_add(s1).wrapping_add(ch).wrapping_add(K512[i]).wrapping_add(w[i]);
-            let s0 = a.rotate_right(28) ^ a.rotate_right(34) ^ a.rotate_right(39);
-            let maj = (a & b) ^ (a & c) ^ (b & c);
-            let t2 = s0.wrapping_add(maj);
-            hh = g; g = f; f = e; e = d.wrapping_add(t1); d = c; c = b; b = a; a = t1.wrapping_add(t2);
-        }
-        for (x, y) in h.iter_mut().zip([a, b, c, d, e, f, g, hh]) { *x = x.wrapping_add(y); }
+const H512: [u64; 8] = [0x6a09e667f3bcc908,0xbb67ae8584caa73b,0x3c6ef372fe94f82b,0xa54ff53a5f1d36f1,0x510e527fade682d1,0x9b05688c2b3e6c1f,0x1f83d9abfb41bd6b,0x5be0cd19137e2179];
+fn sha512_compress(h: &mut [u64; 8], chunk: &[u8]) {
+    let mut w = [0u64; 80];
+    for i in 0..16 { w[i] = u64::from_be_bytes(chunk[8 * i..8 * i + 8].try_into().unwrap()); }
+    for i in 16..80 {
+        let s0 = w[i - 15].rotate_right(1) ^ w[i - 15].rotate_right(8) ^ (w[i - 15] >> 7);
+        let s1 = w[i - 2].rotate_right(19) ^ w[i - 2].rotate_right(61) ^ (w[i - 2] >> 6);
+        w[i] = w[i - 16].wrapping_add(s0).wrapping_add(w[i - 7]).wrapping_add(s1);
     }
+    let [mut a, mut b, mut c, mut d, mut e, mut f, mut g, mut hh] = *h;
+    for i in 0..80 {
+        let s1 = e.rotate_right(14) ^ e.rotate_right(18) ^ e.rotate_right(41);
+        let ch = (e & f) ^ (!e & g);
+        let t1 = hh.wrapping_add(s1).wrapping_add(ch).wrapping_add(K512[i]).wrapping_add(w[i]);
+        let s0 = a.rotate_right(28) ^ a.rotate_right(34) ^ a.rotate_right(39);
+        let maj = (a & b) ^ (a & c) ^ (b & c);
+        let t2 = s0.wrapping_add(maj);
+        hh = g; g = f; f = e; e = d.wrapping_add(t1); d = c; c = b; b = a; a = t1.wrapping_add(t2);
+    }
+    for (x, y) in h.iter_mut().zip([a, b, c, d, e, f, g, hh]) { *x = x.wrapping_add(y); }
+}
+/// finishes a SHA-512 computation whose state `h` has absorbed `absorbed` bytes (a multiple of 128) and is followed by `tail`
+fn sha512_finish(mut h: [u64; 8], absorbed: usize, tail: &[u8]) -> [u8; 64] {
+    let mut m = tail.to_vec(); m.push(0x80);
+    while m.len() % 128 != 112 { m.push(0); }
+    m.extend_from_slice(&(((absorbed + tail.len()) as u128) * 8).to_be_bytes());
+    for chunk in m.chunks(128) { sha512_compress(&mut h, chunk); }
     let mut out = [0u8; 64];
     for i in 0..8 { out[8 * i..8 * i + 8].copy_from_slice(&h[i].to_be_bytes()); }
     out
+}
+fn sha512_raw(msg: &[u8]) -> [u8; 64] {
+    let mut h = H512; let full = msg.len() / 128 * 128;
+    for chunk in msg[..full].chunks(128) { sha512_compress(&mut h, chunk); }
+    sha512_finish(h, full, &msg[full..])
 }
 
 fn hmac_generic(block: usize, hash: &dyn Fn(&[u8]) -> Vec<u8>, key: &[u8], msg: &[u8]) -> Vec<u8> {
@@ -90,11 +97,17 @@ fn hmac_generic(block: usize, hash: &dyn Fn(&[u8]) -> Vec<u8>, key: &[u8], msg: 
 pub fn hmac_sha256(key: &[u8], msg: &[u8]) -> [u8; 32] { let o: [u8; 32] = hmac_generic(64, &|m| sha256_raw(m).to_vec(), key, msg).try_into().unwrap(); crate::trace::rec("hmac_sha256", 300, || (format!("[{},{}]", crate::trace::h(key), crate::trace::h(msg)), crate::trace::h(&o))); o }
 pub fn hmac_sha512(key: &[u8], msg: &[u8]) -> [u8; 64] { let o: [u8; 64] = hmac_generic(128, &|m| sha512_raw(m).to_vec(), key, msg).try_into().unwrap(); crate::trace::rec("hmac_sha512", 300, || (format!("[{},{}]", crate::trace::h(key), crate::trace::h(msg)), crate::trace::h(&o))); o }
 
-/// PBKDF2-HMAC-SHA512, single 64-byte block (dkLen = 64).
+/// PBKDF2-HMAC-SHA512, single 64-byte block (dkLen = 64). The HMAC inner and outer pad blocks are absorbed once
+/// (RFC 2104 allows exactly this precomputation); the first iteration is cross-checked against the plain HMAC.
 pub fn pbkdf2_sha512_64(password: &[u8], salt: &[u8], rounds: u32) -> [u8; 64] {
+    let mut k = if password.len() > 128 { sha512_raw(password).to_vec() } else { password.to_vec() }; k.resize(128, 0);
+    let (mut hi, mut ho) = (H512, H512);
+    sha512_compress(&mut hi, &k.iter().map(|b| b ^ 0x36).collect::<Vec<u8>>()); sha512_compress(&mut ho, &k.iter().map(|b| b ^ 0x5c).collect::<Vec<u8>>());
+    let prf = |msg: &[u8]| -> [u8; 64] { let inner = sha512_finish(hi, 128, msg); sha512_finish(ho, 128, &inner) };
     let mut s = salt.to_vec(); s.extend_from_slice(&1u32.to_be_bytes());
-    let mut u = hmac_sha512(password, &s); let mut t = u;
-    for _ in 1..rounds { u = hmac_sha512(password, &u); for i in 0..64 { t[i] ^= u[i]; } }
+    let mut u = prf(&s); assert_eq!(u, hmac_sha512(password, &s), "pad-state HMAC disagrees with plain HMAC");
+    let mut t = u;
+    for _ in 1..rounds { u = prf(&u); for i in 0..64 { t[i] ^= u[i]; } }
     t
 }
 
